@@ -907,6 +907,10 @@ static void h_c_ambient(const char *cmd, cfg_t *cfg)
 		char *name = h_str(1), *val = h_str(2);
 
 		ok = !h_bad && name && val && setenv(name, val, 1) == 0;
+	} else if (!strcmp(cmd, "envroot")) {	/* NAME := absolute name of the scenario directory */
+		char *name = h_str(1);
+
+		ok = !h_bad && name && setenv(name, h_scndir, 1) == 0;
 	} else if (!strcmp(cmd, "unsetenv")) {
 		char *name = h_str(1);
 
@@ -1535,7 +1539,7 @@ static const struct h_cmd {
 	int ctx;		/* argument 1 names a context */
 	int min, max;		/* number of tokens including the command word */
 } h_cmds[] = {
-	{ "env", h_c_ambient, 0, 3, 3 }, { "unsetenv", h_c_ambient, 0, 2, 2 }, { "errno", h_c_ambient, 0, 2, 2 },
+	{ "env", h_c_ambient, 0, 3, 3 }, { "envroot", h_c_ambient, 0, 2, 2 }, { "unsetenv", h_c_ambient, 0, 2, 2 }, { "errno", h_c_ambient, 0, 2, 2 },
 	{ "file", h_c_ambient, 0, 3, 4 }, { "passwd", h_c_ambient, 0, 3, 3 }, { "passwd_self", h_c_ambient, 0, 2, 2 },
 	{ "failat", h_c_ambient, 0, 2, 2 },
 	{ "init", h_c_init, 0, 4, 4 }, { "poison", h_c_poison, 0, 2, 2 }, { "free", h_c_free, 1, 2, 2 },
